@@ -196,3 +196,39 @@ Example C16_date_text_nonvacuous :
   ymd2ord 1 1 1 = 1%Z /\ ymd2ord 2020 1 1 = 737425%Z /\ ymd2ord 9999 12 31 = 3652059%Z /\
   date_parse (date_iso 2021 2 29) = None.
 Proof. vm_compute. repeat split. Qed.
+
+(* ---------- and for datetimes: x.isoformat() of every datetime (naive, or aware with an offset of whole minutes)
+   reads back as the datetime ----------
+   [datetime_iso] is datetime.isoformat (date, 'T', HH:MM:SS, '.ffffff' when the microsecond is not 0, '+HH:MM' /
+   '-HH:MM' when aware), [datetime_parse] is datetime.fromisoformat restricted to those shapes, [dt_us] the model's
+   wall-clock microsecond count.  Compared with CPython on every run; premise as before. *)
+Theorem C16_datetime_text_roundtrip :
+  forall y m d H M Sc us tz,
+    valid_ymd y m d = true -> valid_time H M Sc us = true -> valid_off tz = true ->
+    datetime_parse (datetime_iso y m d H M Sc us tz) = Some (y, m, d, H, M, Sc, us, tz).
+Proof. exact datetime_roundtrip. Qed.
+Print Assumptions C16_datetime_text_roundtrip.
+
+Theorem C16_datetime_roundtrip :
+  forall E,
+    (forall s y m d H M Sc u tz, datetime_parse s = Some (y, m, d, H, M, Sc, u, tz) ->
+                                 oracle E OkDatetime (VStr s) = Some (VDatetime (dt_us y m d H M Sc u) tz)) ->
+    forall y m d H M Sc us tz,
+      valid_ymd y m d = true -> valid_time H M Sc us = true -> valid_off tz = true ->
+      forall fuel md, run E md (S fuel) (Scalar KDatetime (Some CoDatetime) [] [] []) (VStr (datetime_iso y m d H M Sc us tz))
+                      = OValid (VDatetime (dt_us y m d H M Sc us) tz).
+Proof.
+  intros E Hext y m d H M Sc us tz Hd Ht Ho fuel md.
+  apply (roundtrip E KDatetime CoDatetime (fun _ => VStr (datetime_iso y m d H M Sc us tz)) OkDatetime (VDatetime (dt_us y m d H M Sc us) tz)).
+  - right. right. right. repeat split.
+  - reflexivity.
+  - apply Hext. apply datetime_roundtrip; assumption.
+Qed.
+Print Assumptions C16_datetime_roundtrip.
+
+Example C16_datetime_text_nonvacuous :
+  valid_time 3 4 5 7 = true /\ valid_off (Some (-19800)) = true /\ valid_off (Some 61) = false /\
+  datetime_iso 2020 1 2 3 4 5 7 (Some (-19800))
+  = [50; 48; 50; 48; 45; 48; 49; 45; 48; 50; 84; 48; 51; 58; 48; 52; 58; 48; 53; 46; 48; 48; 48; 48; 48; 55; 45; 48; 53; 58; 51; 48]%Z /\
+  dt_us 2020 1 1 0 0 0 0 = 63713433600000000%Z.
+Proof. vm_compute. repeat split. Qed.
